@@ -38,7 +38,7 @@ try:
     junit = "/tmp/seedws-%s.junit.xml" % seed
     t0 = time.time()
     r = sh("cd %s && PYTHONPATH=%s /venv/bin/python -m pytest -ra -q -p no:cacheprovider --timeout=900 "
-           "--continue-on-collection-errors --junitxml=%s" % (wt, wt, junit))
+           "--continue-on-collection-errors --deselect tests/test_gdb.py::Test_GDB::test_gdb --junitxml=%s" % (wt, wt, junit))
     passed = set()
     try:
         for tc in ET.parse(junit).getroot().iter("testcase"):
